@@ -7,6 +7,8 @@ R-C01-2: converged() returns true only through a comparison that implies value <
          absolute value with the absolute tolerance and the relative value (current/initial of THIS solve) with
          the relative one; an early stop happens only after converged() returned true.
 R-C01-3: the norm switch covers every enumerator with the matching norm expression.
+R-C01-6: verbose_ / paraview_ (what is printed or written) do not steer the iteration: the set of possible outcomes of solve()
+         is the same for every value of them.
 R-C01-5: the iterate after k passes of the loop is cycle^k(start) for the configured cycle type, extrapolation variant and
          smoothing counts (start = 0 or the FMG start vector): the dispatch in solve() hands the right cycle the right
          vectors. (That this iteration converges is numerical and not decided.)
@@ -243,6 +245,38 @@ def main(tier):
             ck.violation("R-C01-5", "solve:iteration:%s" % KN[cyc], ir.locstr(solve_fn), "%s: %s" % (what, probs[0]))
         else:
             ck.ok("R-C01-5", what, sample={"mode": what} if (ext, cyc, fmg, L, mi) == (1, 1, True, 2, 1) else None)
+    # ---- R-C01-6: presentation options do not steer the iteration.  verbose_ and paraview_ select what is printed / written;
+    # the set of possible outcomes of solve() (returned iterate, iteration count, over every outcome of every value-dependent
+    # test) must be the same whatever their values (a numerical decision that moved inside `if (verbose_ > 0)` is silent in
+    # every logged run and wrong in every quiet one)
+    ck.rule("R-C01-6", "the outcomes of solve() (iterate term, iteration count, over all paths) do not depend on verbose_ / paraview_", floor=12)
+    for ext, fmg, mi in itertools.product(range(4), (False, True), (2, 3)):
+        if tier == "quick" and mi == 3 and fmg:
+            continue
+        base_mode = {"L": 2, "FMG": fmg, "FMG_iterations": 1, "FMG_cycle": 0, "extrapolation": ext, "cycle": 0, "nu1": 1, "nu2": 1,
+                     "max_iterations": mi, "abs_tol": True, "rel_tol": True, "exact": False, "norm": 0}
+        what = "ext=%s FMG=%s maxit=%d" % (EXT[ext], fmg, mi)
+        ck.instance("R-C01-6", what)
+
+        def outcomes(verbose, paraview):
+            m = dict(base_mode, verbose=verbose, paraview=paraview)
+            res = set()
+            for o in sr.scenario_fresh(prog, m, with_accessors=False):
+                res.add(("throws %s" % o.throws.what) if o.throws else (show(o.solution), str(o.iterations)))
+            return res
+        ref = outcomes(0, False)
+        bad = None
+        for vb, pv in ((1, False), (2, False), (0, True)):
+            got = outcomes(vb, pv)
+            if got != ref:
+                only = sorted(got - ref) or sorted(ref - got)
+                bad = "with verbose=%d paraview=%s solve() has %d possible outcomes, with verbose=0 paraview=False %d; e.g. only %s: iterate %s after %s iterations" % (
+                    vb, pv, len(got), len(ref), "there" if (got - ref) else "in the quiet run", str(only[0][0])[:160] if isinstance(only[0], tuple) else only[0], only[0][1] if isinstance(only[0], tuple) else "-")
+                break
+        if bad:
+            ck.violation("R-C01-6", "solve:presentation-option-steers-iteration", ir.locstr(solve_fn), "%s: %s" % (what, bad))
+        else:
+            ck.ok("R-C01-6", what, sample={"mode": what, "outcomes": len(ref)} if (ext, fmg, mi) == (3, False, 2) else None)
     # ---- R-C01-4: the combination extrapolatedResidual builds (exact table, interpreted from source)
     from fractions import Fraction
     from gmg import dag, symdom, tab_ops
